@@ -41,6 +41,7 @@ func (a *AndStrategy) Compute(snapshots <-chan *asset.Snapshot) <-chan Action {
 
 	sources := ActionSources(a.Strategies, snapshots)
 
+	helper.VerifStage("Vote", len(sources), []any{sources}, []any{result})
 	go func() {
 		defer close(result)
 
